@@ -1,0 +1,16 @@
+//go:build verif
+
+package router
+
+import "context"
+
+// VerifRun starts a router from cfg like the "router" sub command does and
+// returns a function that shuts it down. Only compiled into the runtime
+// verification build (build tag "verif").
+func VerifRun(ctx context.Context, cfg *Config) (closeFn func(), err error) {
+	r, err := run(ctx, cfg)
+	if err != nil {
+		return nil, err
+	}
+	return func() { r.close(nil) }, nil
+}
